@@ -77,6 +77,10 @@ def c12_jobs(tier, seed):
     j += shards("tsan", "w_lockfree", "c12 --d1 150 --d2 10 --rand 10", 3 if q else 4, s, seed, first=40)
     j += miri("w_lockfree", "c12 --single-store --off 2", 2 if q else 8, s, seed, M1)
     j += miri("w_lockfree", "c12 --off 2", 2 if q else 8, s, seed, M2, first=10)
+    # port level: Writer / Reader / EntryHandle(Mut) on local and ipc blackboard services
+    j += shards("dbg", "w_ports", "c12p --svc local --d1 100 --d2 20 --rand 20", 2 if q else 3, s, seed, first=60)
+    j += shards("dbg", "w_ports", "c12p --svc ipc --d1 100 --d2 20 --rand 20", 2 if q else 3, s, seed, first=70)
+    j += shards("tsan", "w_ports", "c12p --svc local --d1 40 --d2 10 --rand 10", 1 if q else 2, s, seed, first=80)
     return j
 
 
@@ -283,7 +287,7 @@ PROPS = {
         "level": "exploration",
         "jobs": c12_jobs,
         "miri_full": miri_full,
-        "rule": "random programs on UnrestrictedAtomic with self-checking values of 1,2,3,7,8,9,63,64,65,200 bytes and alignment 1/8/64: a writer doing copy-style and loan-style stores and handing the producer token back, an optional contender for the producer token, 1-2 readers; every program under hook off / every depth-1 stall plan / sampled depth-2 / random delays (debug, release, TSan) and Miri (full mode single-store regime, SC mode general). Non-trivial = a load overlapped a store in time; distinct = distinct (program, interleaving signature, observed versions).",
+        "rule": "random programs on UnrestrictedAtomic with self-checking values of 1,2,3,7,8,9,63,64,65,200 bytes and alignment 1/8/64: a writer doing copy-style and loan-style stores and handing the producer token back, an optional contender for the producer token, 1-2 readers; every program under hook off / every depth-1 stall plan / sampled depth-2 / random delays (debug, release, TSan) and Miri (full mode single-store regime, SC mode general). Port level (w_ports c12p, local_threadsafe and ipc_threadsafe blackboard services, keys with 8-, 40- and 200-byte self-checking values): a writer thread (one EntryHandleMut per key; copy updates, loan-style updates, discarded loans, refused second write handle), a contender creating writer ports, 1-2 reader threads with their own ports; rules: no torn value, versions monotone per reader and key, no value from a discarded loan, no read older than an update completed before it began, second writer port never created inside the first one's holding interval, second write handle refused with HandleAlreadyExists, final values = newest, writer slot and write handles free again at quiescence. Non-trivial = a load overlapped a store in time; distinct = distinct (program, interleaving signature, observed versions).",
         "assumptions": COMMON_ASSUMPTIONS,
         "floor": (1000, 100),
     },
